@@ -74,7 +74,7 @@ def write_cfg(path: str, *, constants: dict | None = None, init="Init", next_="N
 def run_tlc(module: str, cfg: str, *, workers: int | str = 8, timeout: int = 900, dump: bool = False,
             simulate: str | None = None, depth: int | None = None, seed: int | None = None,
             coverage: bool = False, env: dict | None = None, tag: str | None = None,
-            dfs: bool = False, keep: bool = False, heap: str = "8g") -> TLCResult:
+            dfs: bool = False, keep: bool = False, heap: str = "8g", tolerate_overflow: bool = False) -> TLCResult:
     """module: name of spec/<module>.tla ; cfg: absolute path or spec-relative cfg name."""
     tag = tag or module
     sc = _scratch(tag)
@@ -138,6 +138,10 @@ def run_tlc(module: str, cfg: str, *, workers: int | str = 8, timeout: int = 900
             res.violated = (m or m2).group(1) if (m or m2) else ("temporal" if m3 else "postcondition" if m4 else "unknown")
             i = out.find("Error:")
             res.trace_text = out[i:i + 6000]
+        elif tolerate_overflow and simulate is not None and "Overflow when computing" in out:
+            # TLC's integers are 32-bit and it stops (loudly) instead of wrapping: the behaviours written before the stop are complete and valid
+            res.ok = True
+            res.overflow = True  # type: ignore[attr-defined]
         else:
             if not keep:
                 shutil.rmtree(sc, ignore_errors=True)
